@@ -7,6 +7,8 @@ ordinal, value, virtual timestamp, closing flag.
 """
 from collections import namedtuple
 
+import numpy as _np
+
 Rec = namedtuple('Rec', ['k', 'n', 'v', 't', 'c'])
 
 # name -> (fn, in_type, out_type)
@@ -76,6 +78,10 @@ _p('lt5', 'int')(lambda v: v < 5)
 _p('ne3', 'int')(lambda v: v % 3 != 0)
 _p('ge0', 'int')(lambda v: v >= 0)
 _p('never', 'int')(lambda v: False)
+# predicates that answer with a truthy / falsy value that is not the builtin bool (numpy users get these all the time)
+_p('np_gt4', 'int')(lambda v: _np.int64(v) > 4)
+_p('odd_truthy', 'int')(lambda v: v % 2)
+_p('r_np_even', 'rec')(lambda r: _np.int64(r.v) % 2 == 0)
 _p('fpos', 'float')(lambda v: v > 0.5)
 _p('p_some', 'optint')(lambda v: v is not None)
 _p('l_nonempty', 'list')(lambda l: len(l) > 0)
@@ -103,6 +109,7 @@ _k('k_const', 'int')(lambda v: 10 ** 30)
 _k('k_div2', 'int')(lambda v: v // 2)          # runs of length <= 2 when v increases
 _k('k_div3big', 'int')(lambda v: 10 ** 20 + v // 3)
 _k('k_id', 'int')(lambda v: v)
+_k('k_np3', 'int')(lambda v: _np.int64(v % 3))
 _k('rk', 'rec')(lambda r: r.k)
 _k('rk_big', 'rec')(lambda r: 10 ** 20 + r.k)
 _k('rk_tup', 'rec')(lambda r: (r.k, 'p%d' % r.k))
@@ -113,6 +120,8 @@ _k('rv_flt', 'rec')(lambda r: (r.v % 3) / 2)
 _k('rv_mixed', 'rec')(lambda r: [1, 1.0, True, 2, 2.0, None][r.v % 6])     # 1 == 1.0 == True: one group
 _k('rv_zero', 'rec')(lambda r: [0.0, -0.0, 0, False, ''][r.v % 5])            # 0.0 == -0.0 == 0 == False, '' differs
 _k('rv_nest', 'rec')(lambda r: ((r.v % 2, (r.v % 3,)), frozenset([r.v % 2])))
+_k('rv_np', 'rec')(lambda r: _np.int64(r.v % 3))                 # `!=` on numpy scalars answers numpy.bool_
+_k('rv_npf', 'rec')(lambda r: _np.float64((r.v % 3) / 2))
 _k('rn_div3', 'rec')(lambda r: 'run-%d' % (r.n // 3))
 _k('pk0', 'pair')(lambda p: p[0] % 3)
 _k('fk', 'float')(lambda v: int(v) % 3)
@@ -197,6 +206,16 @@ def seeds_for(state_type):
     return sorted(n for n, (_, st, _f) in SEEDS.items() if st == state_type)
 
 
+def _append_end(a):
+    a.append(-1)
+    return a
+
+
+def _mark_end(a):
+    a[-1] = a.get(-1, 0) + 1
+    return a
+
+
 # terminators keep the state's type (state lives in typed arrays)
 TERMS = {
     'neg_t': (lambda a: -a, 'int'),
@@ -207,7 +226,13 @@ TERMS = {
     'same_t': (lambda a: a, 'dict'),
     'tail_t': (lambda a: a + (-1,), 'tup'),
     'none_t': (lambda a: None if a is not None and a % 2 else a, 'optfac'),
+    'append_end_t': (_append_end, 'list'),      # mutates its argument in place and returns it
+    'mark_t': (_mark_end, 'dict'),
 }
+
+
+# terminators that mutate their argument in place (the last streamed value is the same object: aliasing)
+MUT_TERMS = {'append_end_t', 'mark_t'}
 
 
 def terms_for(state_type):
